@@ -329,7 +329,7 @@ func c13Run(ctx *run.Ctx, id run.CaseID) {
 						w1, _ := oracle.Winding(o1, T(p))
 						compared++
 						if (w0 != 0) != (w1 != 0) {
-							if m := max(tx, -tx, ty, -ty); m >= int64(1)<<50 || ((jt == clip.Square || jt == clip.Miter) && m >= int64(1)<<36) {
+							if m := max(tx, -tx, ty, -ty); m >= int64(1)<<50 {
 								class = "offset-float-cancellation-at-2^50"
 							}
 							fail("InflatePaths64/"+jtName(jt), fmt.Sprintf("offset by %v: region differs at image of %s (winding %d vs %d); base result=%v translated-input result=%v", d, fmtPt(p), w0, w1, o0, o1))
